@@ -108,6 +108,7 @@ func allocOf(v ssa.Value) ssa.Value {
 }
 
 func runC34(c *Ctx) {
+	c34CertificateConstraints(c)
 	ck := "pkg/scrypto/cppki."
 	if v := c.View(ck + "ValidateChain"); v != nil {
 		e := NewE1(c, v.Fn)
